@@ -157,3 +157,32 @@ def tags_compare(which, chunk=None, timeout_ms=None):
         rep.add(f"law:C16.nested-rules#lemma.{name}", st, secs, be, model={"z3_model": str(m)[:500]} if st == "sat" else None)
         rep.functions["law:C16.nested-rules"]["cases"] += 1
     return rep
+
+
+# ---------------------------------------------------------------- markers (combinator layer)
+def _marker_env():
+    from pyvc import extract
+    from pyvc.engine import Exec
+    from pyvc.theories.marker import MarkerTheory
+    from contracts import markers as C
+    ix = extract.Index()
+    th = MarkerTheory(ix)
+    ax = th.axioms(lambda: Exec(ix, th))
+    return ix, th, ax, C
+
+
+def marker_function(name, timeout_ms=None):
+    from pyvc import verify
+    ix, th, ax, C = _marker_env()
+    contracts = C.all_contracts(th)
+    c = contracts[name]
+    C.install(th, contracts)
+    use = [t for t in contracts if t != name or getattr(c, "recursive", False)]
+
+    class Wrapped(type(c)):
+        def cases(self, th2):
+            for nm, args, pre in c.cases(th2):
+                yield nm, args, list(pre) + ax
+    w = Wrapped.__new__(Wrapped)
+    w.__dict__.update(c.__dict__)
+    return verify.verify_function(ix, th, w, use_contracts=use, contracts=contracts, loop_specs=C.loop_specs(th), timeout_ms=timeout_ms)
